@@ -50,6 +50,8 @@ func (fv *FuncVC) reset() {
 	fv.lockOps = 0
 	fv.frameT = nil
 	fv.frameAll = false
+	fv.cardDone = nil
+	fv.allocBoundTerm = ""
 	fv.pc = "true"
 	fv.cur = &State{cells: map[*ssa.Alloc]string{}, heaps: map[string]string{}}
 }
